@@ -81,6 +81,131 @@ print(json.dumps(out))
 '''
 
 
+_SEQ_SRC = r'''
+import sys, os, logging, json, time, threading
+from pathlib import Path
+args = json.loads(sys.argv[1])
+sys.path.insert(0, args["pkg"])
+logging.basicConfig(level=logging.CRITICAL)
+from experimaestro import experiment
+from experimaestro.scheduler import JobState
+from xvtokpkg.tasks import Hold
+names = args["tokens"]                      # [[name, total, request], ...]
+
+
+def submit_all(xp, xs):
+    jobs = []
+    toks = [xp.token(n, t) for n, t, _ in names]     # the per-process registry hands the same objects out again
+    for x in xs:
+        task = Hold(x=x, count=1, log=Path(args["log"]), dur=args["dur"])
+        for tok, (_, _, c) in zip(toks, names):
+            tok(c, task)
+        task.submit()
+        jobs.append(task.__xpm__.job)
+    return toks, jobs
+
+
+def setenv(xp):
+    xp.setenv("PYTHONPATH", os.pathsep.join([args["pkg"]] + ([os.environ["PYTHONPATH"]] if os.environ.get("PYTHONPATH") else [])))
+
+
+out = {}
+with experiment(Path(args["ws"]), "first", port=-1) as xp:          # experiment 1 runs to completion
+    setenv(xp)
+    toks, first = submit_all(xp, range(args["first"]))
+out["first"] = [j.state.name for j in first]
+xp = experiment(Path(args["ws"]), "second", port=-1)                # experiment 2, same interpreter, same tokens
+xp.__enter__()
+setenv(xp)
+toks2, second = submit_all(xp, range(100, 100 + args["second"]))
+out["same_token_objects"] = all(a is b for a, b in zip(toks, toks2))
+t0 = time.time()
+while time.time() - t0 < args["deadline"] and not all(j.state.finished() for j in second):
+    time.sleep(0.1)
+out["second"] = [j.state.name for j in second]
+out["second_ended_on_disk"] = [j.donepath.is_file() or j.failedpath.is_file() for j in second]
+waited = threading.Event()
+threading.Thread(target=lambda: (xp.wait(), waited.set()), daemon=True).start()
+waited.wait(3.0 if all(j.state.finished() for j in second) else 0.5)
+out["wait_returned"] = waited.is_set()
+time.sleep(0.8)                                                     # let the last release and its events settle
+out["tokens"] = [{"name": n, "total": t.total, "available": t.available, "files": sorted(p.name[:8] for p in t.path.glob("*.token"))}
+                 for t, (n, _, _) in zip(toks2, names)]
+print(json.dumps(out), flush=True)
+os._exit(0)
+'''
+
+
+def sequential_experiments_scenario(ctx, variants=None, timeout=75):
+    """`sequential-experiments-one-process`: one interpreter runs experiment 1 (jobs needing every token) to completion, then
+    experiment 2 with the same token objects (xp.token registry).  C09: every job of experiment 2 becomes final within the time
+    limit, wait() returns, and at the end no token file is left and every token shows its total.  A run that does not end is
+    an observation of the property (monitor failure `…:never-ends`), not a harness error."""
+    from pathlib import Path
+    variants = variants or [([["A", 1, 1], ["B", 1, 1]], 2, 3)]
+    root = Path(ctx.tmpdir()) / "seq-C09"
+    pkg = root / "pkg" / "xvtokpkg"
+    pkg.mkdir(parents=True, exist_ok=True)
+    (pkg / "__init__.py").write_text("")
+    (pkg / "tasks.py").write_text(c08files._TASKS_SRC)
+    res = []
+    for vi, (toks, n1, n2) in enumerate(variants):
+        attempts = []
+        for k in range(2):
+            adir = root / f"s{vi}-{k}"
+            adir.mkdir(parents=True, exist_ok=True)
+            args = {"pkg": str(root / "pkg"), "ws": str(adir / "ws"), "tokens": toks, "first": n1, "second": n2, "dur": 0.2,
+                    "log": str(adir / "log.txt"), "deadline": 12 + 3 * n2}
+            env = dict(os.environ, XPM_WORKDIR=str(adir / "xpm"), PYTHONWARNINGS="ignore")
+            ctx.evaluations += 1
+            try:
+                p = subprocess.run([sys.executable, "-c", _SEQ_SRC, json.dumps(args)], capture_output=True, text=True, timeout=timeout, env=env)
+            except subprocess.TimeoutExpired as e:
+                attempts.append({"failed": "the process did not end", "stderr": str(e.stderr or "")[-300:]})
+                if k == 1:
+                    ctx.monitor_fail("sequential-experiments-one-process:never-ends",
+                                     f"one process running two experiments in sequence on the same tokens {toks} did not end within {timeout} s (twice)",
+                                     {"scenario": "sequential-experiments-one-process", "tokens": toks, "first": n1, "second": n2})
+                continue
+            o = None
+            for line in reversed(p.stdout.strip().splitlines()):
+                try:
+                    o = json.loads(line)
+                    break
+                except json.JSONDecodeError:
+                    continue
+            if o is None:
+                attempts.append({"failed": f"rc={p.returncode}", "stderr": p.stderr[-300:]})
+                ctx.notes.append(f"sequential-experiments-one-process: attempt {k} gave no observation (rc={p.returncode}): ...{p.stderr[-200:]}")
+                continue
+            o["stderr_signature"] = "Event loop is closed" if "Event loop is closed" in p.stderr else None
+            attempts.append(o)
+            case = {"scenario": "sequential-experiments-one-process", "tokens": toks, "first": n1, "second": n2, "observed": o}
+            head = (f"one process, experiment 1 ({n1} jobs needing {'+'.join(f'{n}({c} of {t})' for n, t, c in toks)}) ran to completion "
+                    f"({o['first']}), then experiment 2 with the same token objects and {n2} such jobs: ")
+            stuck = [i for i, st in enumerate(o["second"]) if st not in ("DONE", "ERROR")]
+            leaked = [t for t in o["tokens"] if t["files"]]
+            short = [t for t in o["tokens"] if not t["files"] and t["available"] < t["total"]]
+            fails = []
+            if stuck or not o["wait_returned"]:
+                fails.append(("sequential-experiments-one-process:never-ends",
+                                 head + f"after {args['deadline']} s its jobs are {o['second']} (their processes ended: {o['second_ended_on_disk']}), "
+                                        f"wait() returned: {o['wait_returned']}; tokens at the end: {o['tokens']}"
+                                        + (f"; stderr shows '{o['stderr_signature']}'" if o["stderr_signature"] else ""), case))
+            if not stuck and (leaked or short):
+                fails.append(("sequential-experiments-one-process:token-not-returned",
+                              head + f"all jobs are final ({o['second']}) but the tokens show {o['tokens']}", case))
+            if fails and not any(o["second_ended_on_disk"]) and k == 0:
+                ctx.notes.append("sequential-experiments-one-process: no job of experiment 2 ever ran; retried in a fresh process to rule out an unrelated start-up problem")
+                continue
+            for key, what, cs in fails:
+                ctx.monitor_fail(key, what, cs)
+            break
+        res.append({"tokens": toks, "first": n1, "second": n2, "attempts": attempts})
+    ctx.extra_cov["file_token_sequential_experiments"] = res
+    return res
+
+
 def _script(src, timeout=60):
     env = dict(os.environ, PYTHONWARNINGS="ignore")
     p = subprocess.run([sys.executable, "-c", src], capture_output=True, text=True, timeout=timeout, env=env)
@@ -138,6 +263,8 @@ def correspond(ctx):
     if not ctx.quick():
         c08files.real_runs(ctx, PROP)
     ctx.extra_cov["file_token_scenarios"] = {"real_observer": real_observer_scenario(ctx), "killed_writer": killed_writer_scenario(ctx)}
+    sequential_experiments_scenario(ctx, None if ctx.quick() else [([["A", 1, 1], ["B", 1, 1]], 2, 3), ([["A", 2, 1], ["B", 1, 1], ["C", 2, 2]], 2, 4),
+                                                                   ([["A", 1, 1]], 1, 3)])
 
 
 def search(ctx):
@@ -159,6 +286,17 @@ def replay(ctx, obj):
     rc = c08files.replay_run(ctx, PROP, obj)
     for f in obj.get("failures", []):
         sc = f["case"].get("scenario")
+        if sc == "sequential-experiments-one-process":
+            c = f["case"]
+            sub = common.Ctx(PROP, ctx.tier, ctx.seed)
+            try:
+                sequential_experiments_scenario(sub, [(c["tokens"], c["first"], c["second"])])
+            finally:
+                sub.cleanup()
+            print("replay:", [m["what"][:300] for m in sub.monitor_failures] or "no failure on this tree")
+            if sub.monitor_failures:
+                rc = 1
+                print(f"VIOLATION property={PROP} replay=(replayed)")
         if sc in ("real-observer", "killed-writer"):
             sub = common.Ctx(PROP, ctx.tier, ctx.seed)
             (real_observer_scenario if sc == "real-observer" else killed_writer_scenario)(sub)
